@@ -4,6 +4,7 @@
 import CV.Proto
 import CV.Exec
 import CV.Branch
+import CV.AsmSel
 namespace CV
 
 structure LoadedProg where
@@ -80,12 +81,12 @@ def handle (st : DState) (line : String) : DState × String :=
       | [k, v] => (unhexStr k).bind fun k => v.toNat?.map fun n => (k, n)
       | _ => none
     (st.set id { p with env := p.env ++ env }, "ok")
-  -- ports <prog> wlo:len:delta ...
+  -- ports <prog> wlo:rlo:len ...
   | "ports" :: id :: ps =>
     let p := st.get id
     let ports := ps.filterMap fun t =>
       match t.splitOn ":" with
-      | [a, l, d] => do let a ← a.toNat?; let l ← l.toNat?; let d ← d.toNat?; some ({ wlo := a, len := l, delta := d } : Port)
+      | [a, r, l] => do let a ← a.toNat?; let r ← r.toNat?; let l ← l.toNat?; some ({ wlo := a, rlo := r, len := l } : Port)
       | _ => none
     (st.set id { p with ports := ports }, "ok")
   -- fn <prog> <namehex> <line tokens>
@@ -127,6 +128,39 @@ def handle (st : DState) (line : String) : DState × String :=
       let p := st.get id
       (st, "ok " ++ " ".intercalate (code.map fun l => match l.asmLen p.env with | some n => toString n | none => "bad"))
     | none => (st, "badreq")
+  -- asmsel <mn> <kind> <namehex> <ty> <const> <mem> <size> <scheme> <eight> <off> <high> <prot>
+  | ["asmsel", mn, kind, nameh, ty, cst, mem, size, sch, eight, off, high, prot] =>
+    let kindOf : String → Option OKind := fun k => match k with
+      | "0" => some .nothing | "1" => some .imm | "2" => some .tmp | "3" => some .abs | "4" => some .absX
+      | "5" => some .absY | "6" => some .acc | "7" => some .label | "8" => some .regX | "9" => some .regY | _ => none
+    let tyOf : String → Option VType := fun t => match t with
+      | "char" => some .char | "short" => some .short | "charptr" => some .charPtr
+      | "charptrptr" => some .charPtrPtr | "shortptr" => some .shortPtr | _ => none
+    let memOf : String → VMem := fun m =>
+      if m == "zp" then .zeropage else if m == "superchip" then .superchip else if m == "ramchip" then .ramchip
+      else if m == "ramplus" then .ramplus else if m == "display" then .display else if m == "frequency" then .frequency
+      else if m == "dummy" then .dummy else if m.startsWith "onchip" then .onchip else .rom
+    let schOf : String → Scheme := fun s => if s == "3E" then .e3 else if s == "3EP" then .e3p else .k4
+    match Mn.ofString? mn, kindOf kind, unhexStr nameh, tyOf ty, size.toNat?, off.toInt? with
+    | some mn, some k, some name, some ty, some size, some off =>
+      let v : VarInfo := { name := name, ty := ty, const := cst == "1", mem := memOf mem, size := size }
+      let zp := v.mem == .zeropage
+      let r := asmSel mn k v (schOf sch) (eight == "1") off (high == "1") (prot == "1")
+      (match r with
+       | .instr i =>
+         -- round trip: does the rendered text select the mode the form promised?
+         let env : Env := [(name, if zp then 0x10 else 0x1000), ("cctmp", 0x80)]
+         let viaText := (resolve env i.mn i.opd).map fun p => p.2.len
+         let viaForm := match selA mn k ty v.const zp (size == 1) (eight == "1") (high == "1") with
+           | .ok f _ _ _ => if applicable mn f then (modeOfForm mn f zp).map Mode.len else viaText
+           | .redirect m => (modeOfForm m .none zp).map Mode.len
+           | _ => none
+         let shw := fun (o : Option Nat) => match o with | some n => toString n | none => "none"
+         (st, tokenOfLine (.instr i) ++ " text=" ++ shw viaText ++ " form=" ++ shw viaForm)
+       | .nothing => (st, "nothing")
+       | .err => (st, "err")
+       | .panic => (st, "panic"))
+    | _, _, _, _, _, _ => (st, "badreq")
   -- branch <line tokens>
   | "branch" :: toks =>
     match codeOfTokens toks with
